@@ -555,6 +555,40 @@ void t_atof_long(Src &s, Case &c)
     check_parse(c, pe, lit, blk, term);
 }
 
+// Arbitrary short strings over the literal's own alphabet {0-9 . e E + -}: texts without any digit, dangling
+// exponents ("1e", "1e+x"), second points or signs. The literal is whatever host strtod takes from the front
+// (possibly nothing: value 0, end == start); the end cursor is re-used from an earlier call. Characters that
+// would let the host go beyond the statement's grammar (white space, inf/nan, hex floats) are never generated.
+void t_atof_partial(Src &s, Case &c)
+{
+    PEntry pe = (PEntry)s.weighted({3, 3, 1, 2, 1});
+    static const char al[] = {'0', '1', '5', '9', '.', 'e', 'E', '+', '-', '7'};
+    size_t n = (size_t)s.range(0, 9);
+    std::string text;
+    for (size_t i = 0; i < n; i++)
+        text += al[s.below(sizeof al)];
+    static const unsigned char terms[] = {0, 0, ',', ' ', 'z', 'f', ';', 0x80, ')', 'g'};
+    unsigned char term = terms[s.below(sizeof terms)];
+    if (text.empty() && term == ' ')
+        term = ','; // leading white space is the host's business (strtod skips it), not the grammar's
+    std::string full = text;
+    if (term)
+    {
+        full += (char)term;
+        if (s.coin())
+            full += "1";
+    }
+    char *hend = nullptr;
+    strtod(full.c_str(), &hend);
+    std::string lit = full.substr(0, (size_t)(hend - full.c_str()));
+    Exact blk(full.c_str(), full.size() + 1);
+    c.log("%s(\"%s\" + 0x%02x): host takes %zu characters", pentry_name[pe], text.c_str(), term, lit.size());
+    c.label(pentry_name[pe]);
+    c.label(lit.empty() ? "no_literal" : lit.size() < text.size() ? "literal_is_a_proper_prefix" : "whole_text");
+    c.nontrivial = lit.size() < text.size();
+    check_parse(c, pe, lit, blk, term);
+}
+
 } // namespace
 
 VP_TARGET("ftoa", t_ftoa,
@@ -566,6 +600,10 @@ VP_TARGET("ftoa_sweep", t_ftoa_sweep,
           "exhaustive in the thorough tier: all 2^32 float bit patterns x precisions {-1,0,1,2,3,6,10} through igris_f32toa "
           "(blocks of 65536 patterns); quick: 512 blocks, one per sign/exponent",
           sweep_size);
+VP_TARGET("atof_partial", t_atof_partial,
+          "strings of 0..9 characters over {0 1 5 7 9 . e E + -} followed by a terminator: differential against host strtod on how much of the text is a "
+          "literal (nothing at all, a proper prefix such as \"1\" of \"1e+\", or everything), its value and the end cursor; non-trivial = the literal is a "
+          "proper prefix of the generated text");
 VP_TARGET("atof_long", t_atof_long,
           "long literals of the same grammar: up to 80 significant digits, zero runs of 20..400 before or after the digits, leading "
           "zeros, exponents that bring the value back into range; same oracle as atof (values outside the normal range of the "
